@@ -2,6 +2,7 @@ package main
 
 import (
 	"fmt"
+	"go/ast"
 	"go/token"
 	"go/types"
 	"sort"
@@ -49,6 +50,14 @@ func (ex *Exec) atReturn(st *State, r *ssa.Return) {
 			}
 			st.sc.comment("ensures %s", cl.Text)
 			st.check(name, "ensures", e.eval(cl.Expr), cl.Text, cl.Props, r.Pos())
+		}
+	}
+	if ex.fn.Synthetic == "package initializer" {
+		if pc := ex.prog.PC[ex.pkgPath()]; pc != nil {
+			for _, gi := range pc.GlobalInvs {
+				e := &Env{st: st, pkgPath: gi.PkgPath, info: ex.prog.infoFor(gi.PkgPath), vars: map[string]BVal{}, cur: st.heap, old: st.entry, allocLo: st.alloc0}
+				st.check("globalinv:"+gi.Name, "ensures", e.eval(gi.Requires[0].Expr), "package initialiser establishes the global invariant: "+gi.Requires[0].Text, gi.Props, r.Pos())
+			}
 		}
 	}
 	st.check("cover/return", "cover", tFalse, "vacuity probe: this return must be reachable (expected sat)", nil, r.Pos())
@@ -547,7 +556,7 @@ func (ex *Exec) resolveCallee(st *State, c *ssa.Call, quiet bool) (*Contract, []
 }
 
 func ifaceMethodKey(it types.Type, method string) string {
-	if nt, ok := it.(*types.Named); ok {
+	if nt, ok := it.(*types.Named); ok && nt.Obj().Pkg() != nil {
 		return nt.Obj().Pkg().Name() + "." + nt.Obj().Name() + "." + method
 	}
 	return it.String() + "." + method
@@ -582,6 +591,10 @@ func (ex *Exec) call(st *State, c *ssa.Call) {
 		ex.builtin(st, c, bi)
 		return
 	}
+	if f, ok := cc.Value.(*ssa.Function); ok && f.Synthetic == "package initializer" {
+		// initialisers of imported packages write only their own package's variables (assumed)
+		return
+	}
 	con, bindings := ex.resolveCallee(st, c, false)
 	var args []Term
 	var argTypes []types.Type
@@ -610,9 +623,31 @@ func (ex *Exec) applyContract(st *State, c *ssa.Call, con *Contract, bindings []
 	if len(bs) != len(args) {
 		ex.abort("STALE-CONTRACT: contract %s has %d parameters, call passes %d", con.Name, len(bs), len(args))
 	}
+	var argVals []ssa.Value
+	if c != nil {
+		cc := c.Common()
+		if cc.IsInvoke() {
+			argVals = append(argVals, cc.Value)
+		}
+		argVals = append(argVals, cc.Args...)
+	}
 	for _, b := range bs {
-		e.vars[b.Name] = BVal{Val: args[i]}
+		bv := BVal{Val: args[i]}
+		if i < len(argVals) {
+			bv.SSA = argVals[i]
+		}
+		e.vars[b.Name] = bv
 		i++
+	}
+	if con.Parent != nil {
+		// a callee contract of a parameter of this very function: the parent's binders are this function's parameters
+		pe := ex.envFor(st, con.Parent)
+		ex.bindSelf(st, con.Parent, pe)
+		for k, v := range pe.vars {
+			if _, dup := e.vars[k]; !dup {
+				e.vars[k] = v
+			}
+		}
 	}
 	if len(con.Captures) > 0 {
 		if bindings != nil {
@@ -631,6 +666,14 @@ func (ex *Exec) applyContract(st *State, c *ssa.Call, con *Contract, bindings []
 		e.vars[l.Label] = e.evalLetSafe(l)
 	}
 	pos := c.Pos()
+	// 0. function-typed arguments must refine the callee contract declared for the parameter
+	for k, b := range bs {
+		kc := ex.prog.Contracts[con.Target+"#"+b.Name]
+		if kc == nil || k >= len(argVals) {
+			continue
+		}
+		ex.checkRefinement(st, e, kc, argVals[k], tag+"#"+b.Name, pos)
+	}
 	// 1. preconditions
 	for k, cl := range con.Requires {
 		name := fmt.Sprintf("pre@%s/#%d", tag, k+1)
@@ -857,4 +900,117 @@ func (ex *Exec) appendOp(st *State, c *ssa.Call, ord int) {
 	res := st.sc.fresh("app_res", SSlice)
 	st.sc.assert(eq(res, ite(inplace, mkSlice(slArr(s), slOff(s), newLen, slCap(s)), mkSlice(id, intLit(0), newLen, ncap))))
 	st.vals[c] = res
+}
+
+// closureContract: contract and capture bindings of a statically known function value
+func (ex *Exec) closureContract(v ssa.Value) (*Contract, []ssa.Value) {
+	for {
+		switch t := v.(type) {
+		case *ssa.MakeClosure:
+			return ex.prog.Contracts[keyOfFunction(t.Fn.(*ssa.Function))], t.Bindings
+		case *ssa.Function:
+			return ex.prog.Contracts[keyOfFunction(t)], nil
+		case *ssa.ChangeType:
+			v = t.X
+		default:
+			return nil, nil
+		}
+	}
+}
+
+func (ex *Exec) closureEnv(st *State, fc *Contract, bindings []ssa.Value, base *Env) *Env {
+	fe := &Env{st: st, pkgPath: fc.PkgPath, info: ex.prog.infoFor(fc.PkgPath), vars: map[string]BVal{}, cur: base.cur, old: base.cur, ghost: base.ghost, ghost0: base.ghost, allocLo: base.allocLo}
+	if len(fc.Captures) != len(bindings) {
+		ex.abort("STALE-CONTRACT: closure %s captures %d variables, contract declares %d", fc.Name, len(bindings), len(fc.Captures))
+	}
+	for k, b := range fc.Captures {
+		l := ex.locOf(st, bindings[k])
+		fe.vars[b.Name] = BVal{Cell: &l}
+	}
+	return fe
+}
+
+// checkRefinement: the function value passed for a function-typed parameter
+// must accept everything the callee contract allows (pre) and guarantee
+// everything it promises (post); only closures that assign nothing are supported.
+func (ex *Exec) checkRefinement(st *State, outer *Env, kc *Contract, fval ssa.Value, tag string, pos token.Pos) {
+	fc, bindings := ex.closureContract(fval)
+	if fc == nil {
+		ex.abort("function value passed for parameter with a callee contract (%s) has no contract", kc.Target)
+	}
+	for _, cl := range fc.Assigns {
+		if strings.TrimSpace(cl.Text) != "nothing" {
+			ex.abort("refinement of %s by %s: only functions that assign nothing are supported", kc.Target, fc.Name)
+		}
+	}
+	if len(kc.Params) != len(fc.Params) || len(kc.Results) != len(fc.Results) {
+		ex.abort("STALE-CONTRACT: %s and %s disagree on arity", kc.Target, fc.Name)
+	}
+	ke := &Env{st: st, pkgPath: kc.PkgPath, info: ex.prog.infoFor(kc.PkgPath), vars: map[string]BVal{}, cur: outer.cur, old: outer.cur, ghost: outer.ghost, ghost0: outer.ghost, allocLo: outer.allocLo}
+	for k, v := range outer.vars {
+		ke.vars[k] = v
+	}
+	fe := ex.closureEnv(st, fc, bindings, outer)
+	for i, b := range kc.Params {
+		t := ex.typeOfBinder(kc, b)
+		v := st.sc.fresh("rf_"+b.Name, st.u().sortOf(t))
+		st.assumeWellFormed(v, t)
+		ke.vars[b.Name] = BVal{Val: v}
+		fe.vars[fc.Params[i].Name] = BVal{Val: v}
+	}
+	var kpre, fpre []Term
+	for _, cl := range kc.Requires {
+		kpre = append(kpre, ke.eval(cl.Expr))
+	}
+	for _, cl := range fc.Requires {
+		fpre = append(fpre, fe.eval(cl.Expr))
+	}
+	st.sc.comment("refinement of %s by %s", kc.Target, fc.Name)
+	// the checks below are implications over fresh constants: they must not be assumed afterwards as plain facts about them only
+	st.check("refine@"+tag+"/pre", "refine", implies(and(kpre...), and(fpre...)), "the function passed accepts every argument the callee contract allows ("+fc.Name+")", nil, pos)
+	for i, b := range kc.Results {
+		t := ex.typeOfBinder(kc, b)
+		v := st.sc.fresh("rf_"+b.Name, st.u().sortOf(t))
+		st.assumeWellFormed(v, t)
+		ke.vars[b.Name] = BVal{Val: v}
+		fe.vars[fc.Results[i].Name] = BVal{Val: v}
+	}
+	var kpost, fpost []Term
+	for _, cl := range kc.Ensures {
+		kpost = append(kpost, ke.eval(cl.Expr))
+	}
+	for _, cl := range fc.Ensures {
+		fpost = append(fpost, fe.eval(cl.Expr))
+	}
+	st.check("refine@"+tag+"/post", "refine", implies(and(append(kpre, fpost...)...), and(kpost...)), "the function passed guarantees what the callee contract promises ("+fc.Name+")", nil, pos)
+}
+
+// applyPureClosure: value of call(f, args) for a closure whose contract has a
+// defining postcondition `ensures [def] r == E`.
+func (ex *Exec) applyPureClosure(e *Env, n ast.Node, bv BVal, args []Term) Term {
+	if bv.SSA == nil {
+		e.fail(n, "call(): the function value is not statically known here")
+	}
+	fc, bindings := ex.closureContract(bv.SSA)
+	if fc == nil {
+		e.fail(n, "call(): function value has no contract")
+	}
+	var def *Clause
+	for _, cl := range fc.Ensures {
+		if cl.Label == "def" {
+			def = cl
+		}
+	}
+	if def == nil {
+		e.fail(n, "call(): contract of %s has no `ensures [def] r == E` clause", fc.Name)
+	}
+	be, ok := def.Expr.(*ast.BinaryExpr)
+	if !ok || be.Op != token.EQL {
+		e.fail(n, "call(): def clause of %s is not of the form r == E", fc.Name)
+	}
+	fe := ex.closureEnv(e.st, fc, bindings, e)
+	for i, b := range fc.Params {
+		fe.vars[b.Name] = BVal{Val: args[i]}
+	}
+	return fe.eval(be.Y)
 }
